@@ -404,6 +404,45 @@ def report(ctx, module):
     return 1
 
 
+def _regress_shard(args):
+    """Replay saved minimal cases (regress/<property>/*.json) through the property's plain replay() function."""
+    module_name, paths = args
+    import importlib
+
+    module = importlib.import_module(module_name)
+    sub = Sub("regress")
+    skipped = 0
+    for path in paths:
+        try:
+            with open(path, "r", encoding="utf-8") as f:
+                saved = json.load(f)
+            before = dict((s, e["count"]) for s, e in sub.fails.items())
+            module.replay(sub, saved["case"])
+            for s, e in sub.fails.items():  # name the saved input in the message of what it (re-)exposed
+                if e["count"] != before.get(s) and "[regress:" not in e["message"]:
+                    e["message"] = "[regress:%s] %s" % (os.path.basename(path), e["message"])
+        except Exception as error:  # a saved input the current harness cannot interpret is not evidence of anything
+            skipped += 1
+            sub.notes["regress-skipped:" + os.path.basename(path)] = "%s: %s" % (type(error).__name__, str(error)[:120])
+    sub.cls("regress:replayed", len(paths) - skipped)
+    if skipped:
+        sub.cls("regress:skipped", skipped)
+    return sub
+
+
+def run_regress(ctx, module):
+    """Seconds-long replay tier: every saved minimal failing input of a repaired defect or of a confirmed seeded
+    regression is checked again, without Hypothesis, before the generated search starts."""
+    folder = os.path.join(VERIF, "regress", ctx.prop_id)
+    if not os.path.isdir(folder) or not hasattr(module, "replay"):
+        return
+    paths = sorted(os.path.join(folder, n) for n in os.listdir(folder) if n.endswith(".json"))
+    if not paths:
+        return
+    shards = max(1, min(ctx.workers, len(paths) // 4 or 1))
+    ctx.par(_regress_shard, [(module.__name__, paths[i::shards]) for i in range(shards)], shards)
+
+
 def main(argv=None):
     import argparse
     import importlib
@@ -445,6 +484,7 @@ def main(argv=None):
                 return 1
             print("replay: no violation")
             return 0
+        run_regress(ctx, module)
         module.run(ctx)
         code = report(ctx, module)
         total = ctx.total
